@@ -35,6 +35,7 @@ type Profile struct {
 	UnknownNames       bool
 	Codes              []int
 	NoFinishExits      bool
+	ShutdownCfg        bool // some processes carry a shutdown.command or a shutdown.timeout_seconds
 }
 
 // OnExclude is told when the generator avoids the class of a known finding by construction.
@@ -138,6 +139,13 @@ func GenProject(t *rapid.T, pr Profile) *sc.Scenario {
 		}
 		if pr.BadDir && pct(t, 8, "baddir") {
 			p.BadDir = true
+		}
+		if pr.ShutdownCfg {
+			if pct(t, 15, "shutcmd") {
+				p.ShutdownCmd = "true"
+			} else if pct(t, 6, "shuttimeout") {
+				p.ShutdownTimeout = 1
+			}
 		}
 		nb := 1
 		if p.Restart == "always" || p.Restart == "on_failure" {
